@@ -4099,10 +4099,12 @@ func listOmitsCommas(elems []ast.Expr, lbrack, rbrack token.Pos) bool {
 // the only case where we force a space.
 //
 // The hazard arises only when the operand starts with an operator
-// character, which happens only when the operand is itself a
-// UnaryExpr. All other operand begins with a digit, letter, quote, or
-// bracket (a binary operand is parenthesised by [wrapForPrecedence],
-// so it begins with `(`) and can never merge.
+// character, which happens when the operand is itself a UnaryExpr, or
+// a BasicLit that carries its sign (programmatic ASTs such as the
+// exporter's write a negative number as the single literal `-5`). Every
+// other operand begins with a digit, letter, quote, or bracket (a binary
+// operand is parenthesised by [wrapForPrecedence], so it begins with
+// `(`) and can never merge.
 //
 //   - op `<`, operand first byte `-`: forms `<-` (ARROW), e.g. `<-5`.
 //   - op `<`, operand first byte `=`: forms `<=` (LEQ), e.g. `<=~"x"`.
@@ -4112,11 +4114,13 @@ func listOmitsCommas(elems []ast.Expr, lbrack, rbrack token.Pos) bool {
 // Keying off tokenisation rather than RelPos means the space is emitted
 // by construction, even for programmatic ASTs that carry no RelPos.
 func unaryOpMergesWithOperand(op token.Token, operand ast.Expr) bool {
-	inner, ok := operand.(*ast.UnaryExpr)
-	if !ok {
-		return false
+	var lead string
+	switch x := operand.(type) {
+	case *ast.UnaryExpr:
+		lead = x.Op.String()
+	case *ast.BasicLit:
+		lead = x.Value
 	}
-	lead := inner.Op.String()
 	if lead == "" {
 		return false
 	}
